@@ -1,5 +1,5 @@
 // auto-generated: "lalrpop 0.23.1"
-// sha3: cc3a5a70dd80bd27f23171056c2a3ae100e7ac34325829c934a06de925d7ac50
+// sha3: 5a18cd2c556ebd33f1f2ced5bd836f14f44a11a52a02b32276f1eeacf3d78842
 use crate::rt::*;
 #[allow(unused_extern_crates)]
 extern crate lalrpop_util as __lalrpop_util;
@@ -820,14 +820,12 @@ fn __action1<
 >(
     (_, l, _): (i64, i64, i64),
     (_, c0, _): (i64, Tree, i64),
-    (_, pL1, _): (i64, i64, i64),
     (_, c1, _): (i64, Tok, i64),
     (_, c2, _): (i64, Tree, i64),
-    (_, pR3, _): (i64, i64, i64),
     (_, r, _): (i64, i64, i64),
 ) -> Tree
 {
-    { probe("E#0", 1, 'L', pL1); probe("E#0", 3, 'R', pR3); node("E#0", l, r, vec![Tree::from(c0), Tree::from(c1), Tree::from(c2)]) }
+    node("E#0", l, r, vec![Tree::from(c0), Tree::from(c1), Tree::from(c2)])
 }
 
 #[allow(clippy::too_many_arguments, clippy::needless_lifetimes, clippy::just_underscores_and_digits, clippy::extra_unused_type_parameters)]
@@ -859,11 +857,10 @@ fn __action4<
 >(
     (_, l, _): (i64, i64, i64),
     (_, c0, _): (i64, Tree, i64),
-    (_, pR1, _): (i64, i64, i64),
     (_, r, _): (i64, i64, i64),
 ) -> Tree
 {
-    { probe("T#1", 1, 'R', pR1); node("T#1", l, r, vec![Tree::from(c0)]) }
+    node("T#1", l, r, vec![Tree::from(c0)])
 }
 
 #[allow(clippy::too_many_arguments, clippy::needless_lifetimes, clippy::just_underscores_and_digits, clippy::extra_unused_type_parameters)]
@@ -873,23 +870,21 @@ fn __action5<
     (_, c0, _): (i64, Tok, i64),
     (_, c1, _): (i64, Tree, i64),
     (_, c2, _): (i64, Tok, i64),
-    (_, pL3, _): (i64, i64, i64),
     (_, r, _): (i64, i64, i64),
 ) -> Tree
 {
-    { probe("F#0", 3, 'L', pL3); node("F#0", l, r, vec![Tree::from(c0), Tree::from(c1), Tree::from(c2)]) }
+    node("F#0", l, r, vec![Tree::from(c0), Tree::from(c1), Tree::from(c2)])
 }
 
 #[allow(clippy::too_many_arguments, clippy::needless_lifetimes, clippy::just_underscores_and_digits, clippy::extra_unused_type_parameters)]
 fn __action6<
 >(
     (_, l, _): (i64, i64, i64),
-    (_, pL0, _): (i64, i64, i64),
     (_, c0, _): (i64, Tok, i64),
     (_, r, _): (i64, i64, i64),
 ) -> Tree
 {
-    { probe("F#1", 0, 'L', pL0); node("F#1", l, r, vec![Tree::from(c0)]) }
+    node("F#1", l, r, vec![Tree::from(c0)])
 }
 
 #[allow(clippy::needless_lifetimes, clippy::clone_on_copy)]
@@ -920,31 +915,21 @@ fn __action9<
     __1: (i64, Tok, i64),
     __2: (i64, Tree, i64),
     __3: (i64, i64, i64),
-    __4: (i64, i64, i64),
 ) -> Tree
 {
     let __start0 = __0.0.clone();
     let __end0 = __0.0.clone();
-    let __start1 = __0.2.clone();
-    let __end1 = __1.0.clone();
     let __temp0 = __action8(
         &__start0,
         &__end0,
     );
     let __temp0 = (__start0, __temp0, __end0);
-    let __temp1 = __action8(
-        &__start1,
-        &__end1,
-    );
-    let __temp1 = (__start1, __temp1, __end1);
     __action1(
         __temp0,
         __0,
-        __temp1,
         __1,
         __2,
         __3,
-        __4,
     )
 }
 
@@ -982,24 +967,16 @@ fn __action11<
 {
     let __start0 = __0.0.clone();
     let __end0 = __0.0.clone();
-    let __start1 = __2.2.clone();
-    let __end1 = __3.0.clone();
     let __temp0 = __action8(
         &__start0,
         &__end0,
     );
     let __temp0 = (__start0, __temp0, __end0);
-    let __temp1 = __action8(
-        &__start1,
-        &__end1,
-    );
-    let __temp1 = (__start1, __temp1, __end1);
     __action5(
         __temp0,
         __0,
         __1,
         __2,
-        __temp1,
         __3,
     )
 }
@@ -1014,21 +991,13 @@ fn __action12<
 {
     let __start0 = __0.0.clone();
     let __end0 = __0.0.clone();
-    let __start1 = __0.0.clone();
-    let __end1 = __0.0.clone();
     let __temp0 = __action8(
         &__start0,
         &__end0,
     );
     let __temp0 = (__start0, __temp0, __end0);
-    let __temp1 = __action8(
-        &__start1,
-        &__end1,
-    );
-    let __temp1 = (__start1, __temp1, __end1);
     __action6(
         __temp0,
-        __temp1,
         __0,
         __1,
     )
@@ -1066,7 +1035,6 @@ fn __action14<
 >(
     __0: (i64, Tree, i64),
     __1: (i64, i64, i64),
-    __2: (i64, i64, i64),
 ) -> Tree
 {
     let __start0 = __0.0.clone();
@@ -1080,7 +1048,6 @@ fn __action14<
         __temp0,
         __0,
         __1,
-        __2,
     )
 }
 
@@ -1095,24 +1062,16 @@ fn __action15<
 {
     let __start0 = __2.2.clone();
     let __end0 = __2.2.clone();
-    let __start1 = __2.2.clone();
-    let __end1 = __2.2.clone();
     let __temp0 = __action7(
         &__start0,
         &__end0,
     );
     let __temp0 = (__start0, __temp0, __end0);
-    let __temp1 = __action7(
-        &__start1,
-        &__end1,
-    );
-    let __temp1 = (__start1, __temp1, __end1);
     __action9(
         __0,
         __1,
         __2,
         __temp0,
-        __temp1,
     )
 }
 
@@ -1213,22 +1172,14 @@ fn __action20<
 {
     let __start0 = __0.2.clone();
     let __end0 = __0.2.clone();
-    let __start1 = __0.2.clone();
-    let __end1 = __0.2.clone();
     let __temp0 = __action7(
         &__start0,
         &__end0,
     );
     let __temp0 = (__start0, __temp0, __end0);
-    let __temp1 = __action7(
-        &__start1,
-        &__end1,
-    );
-    let __temp1 = (__start1, __temp1, __end1);
     __action14(
         __0,
         __temp0,
-        __temp1,
     )
 }
 
